@@ -18,6 +18,8 @@ pub(crate) const CRC: crc::Crc<u32> = crc::Crc::<u32>::new(&CUSTOM_ALG);
 
 /// This check a "full" slice (containing data AND crc)
 pub(crate) fn assert_slice_crc(buf: &[u8]) -> Result<()> {
+    #[cfg(jubako_verif)]
+    crate::verif::point("block_crc", buf.len() as u64, 0);
     let data_size = buf.len() - 4;
     let slice = &buf[..data_size];
     let mut digest = CRC.digest();
